@@ -58,6 +58,7 @@ INDEX = {
    {"name": "VerifH08IntField", "common": {"max_depth": 3000}, "quick": {"bounds": {"values": 1, "magnitude": 7}}, "thorough": {"bounds": {"values": 2, "magnitude": 100}}},
    {"name": "VerifH08FieldMeta", "common": {"max_depth": 3000}, "quick": {"bounds": {}}},
    {"name": "VerifH08IndexMeta", "common": {"max_depth": 3000}, "quick": {"bounds": {}}},
+   {"name": "VerifH08IndexRestart", "common": {"max_depth": 4000, "allow_go": True}, "quick": {"bounds": {"types": 5, "writes": 1}}, "thorough": {"bounds": {"types": 5, "writes": 2}}},
  ]},
  "C09": {"package": "./roaring", "harnesses": [
    {"name": "VerifH09OpLogCrash", "common": {"max_depth": 3000}, "quick": {"bounds": {"steps": 2, "ops": 4, "keys": 1}}, "thorough": {"bounds": {"steps": 2, "ops": 4, "keys": 2}}},
